@@ -85,6 +85,16 @@ func (s *Service) ImportKey(name, password string, keyJson []byte) (err error) {
 	if err != nil {
 		return err
 	}
+	// decode and re-encrypt before the current key file is moved away, so that a
+	// failure (or a run-time panic on malformed key JSON) cannot lose the key
+	pk, err := decryptKey(keyJson, password)
+	if err != nil {
+		return err
+	}
+	d, err := encryptKey(pk, password)
+	if err != nil {
+		return err
+	}
 	bakFile, err := s.bak(name)
 	if err != nil {
 		return err
@@ -94,15 +104,6 @@ func (s *Service) ImportKey(name, password string, keyJson []byte) (err error) {
 			_ = s.restore(name, bakFile)
 		}
 	}()
-
-	pk, err := decryptKey(keyJson, password)
-	if err != nil {
-		return err
-	}
-	d, err := encryptKey(pk, password)
-	if err != nil {
-		return err
-	}
 
 	return s.write(name, d)
 }
@@ -112,6 +113,10 @@ func (s *Service) ImportPrivateKey(name, password string, pk *ecdsa.PrivateKey) 
 	if err != nil {
 		return err
 	}
+	d, err := encryptKey(pk, password)
+	if err != nil {
+		return err
+	}
 	bakFile, err := s.bak(name)
 	if err != nil {
 		return err
@@ -121,11 +126,6 @@ func (s *Service) ImportPrivateKey(name, password string, pk *ecdsa.PrivateKey) 
 			_ = s.restore(name, bakFile)
 		}
 	}()
-
-	d, err := encryptKey(pk, password)
-	if err != nil {
-		return err
-	}
 
 	return s.write(name, d)
 }
